@@ -261,7 +261,9 @@ def to_trace(events, n_walkers, tid=1, options=None):
             rec = {"ev": "Prop", "coh": bool(np.isfinite(e["coh"]) and float(e["coh"]) <= COH_TOL),
                    "cohval": float(e["coh"]) if np.isfinite(e["coh"]) else -1.0,
                    "alive0": [bool(x > 0) for x in w0],
-                   "shift_is_est": bool(abs(complex(e["shift"]) - complex(e["eest"])) <= 1e-12 * max(1.0, abs(complex(e["eest"]))))}
+                   # (an extinct population has a NaN estimate and a NaN shift: NaN initialised from NaN is "equal")
+                   "shift_is_est": bool(abs(complex(e["shift"]) - complex(e["eest"])) <= 1e-12 * max(1.0, abs(complex(e["eest"])))
+                                        or (np.isnan(complex(e["shift"])) and np.isnan(complex(e["eest"]))))}
             if d is not None:
                 w1 = np.asarray(d["w"], dtype=float)
                 rec["alive1"] = [bool(x > 0) for x in w1]
